@@ -20,7 +20,11 @@ pub fn enter(outer: &Scope, e: &A) -> Scope {
     let mut s = outer.clone();
     for d in &e.nss {
         if d.ns.is_empty() {
-            s.remove(&d.name);
+            // xmlns="" (and the API's equivalent for a prefix) takes the binding away; the xml prefix cannot lose its
+            // binding (statement of C09: "the xml prefix always bound")
+            if d.name != "xml" {
+                s.remove(&d.name);
+            }
         } else {
             s.insert(d.name.clone(), d.ns.clone());
         }
